@@ -50,6 +50,9 @@ ROOTS = [
     ("___cds_wfcq_splice", "include/urcu/static/wfcqueue.h"),
     ("_cds_lfq_enqueue_rcu", "include/urcu/static/rculfqueue.h"),
     ("_cds_lfq_dequeue_rcu", "include/urcu/static/rculfqueue.h"),
+    ("_cds_lfs_push_rcu", "include/urcu/static/rculfstack.h"),
+    ("_cds_lfs_pop_rcu", "include/urcu/static/rculfstack.h"),
+    ("_cds_wfq_enqueue", "include/urcu/static/wfqueue.h"),
     ("urcu_ref_get_safe", "include/urcu/ref.h"),
     ("urcu_ref_put", "include/urcu/ref.h"),
     ("urcu_ref_get_unless_zero", "include/urcu/ref.h"),
@@ -57,6 +60,7 @@ ROOTS = [
 SEARCH = ["include/urcu/static/urcu-common.h", "include/urcu/static/urcu-memb.h", "include/urcu/static/urcu-mb.h",
           "include/urcu/static/urcu-bp.h", "include/urcu/static/urcu-qsbr.h", "include/urcu/static/wfstack.h",
           "include/urcu/static/lfstack.h", "include/urcu/static/wfcqueue.h", "include/urcu/static/rculfqueue.h",
+          "include/urcu/static/rculfstack.h", "include/urcu/static/wfqueue.h",
           "include/urcu/ref.h"]
 
 # opaque primitives: C name -> (Prim constructor, number of value arguments kept, returns a value, number of memory orders)
